@@ -2,6 +2,7 @@ package main
 
 import (
 	"fmt"
+	"strconv"
 	"strings"
 	"sync"
 
@@ -226,7 +227,16 @@ func searchWatched(expr string, jp *jmespath.JMESPath, doc interface{}) (mon.Obs
 
 func c06Case(r *mon.Run, t *mon.Tally, rl *mon.RaceLog, wl string, idx int, tree *gen.Expr, base interface{}, frozen bool) {
 	expr := gen.Spell(tree)
-	doc := withSpare(base)
+	var doc interface{}
+	docDesc := ""
+	if mk, ok := base.(func() interface{}); ok {
+		// documents that are not plain JSON trees are built afresh by the caller
+		doc = mk()
+		docDesc = clipStr(mon.Snapshot(doc), 1500)
+		base = nil
+	} else {
+		doc = withSpare(base)
+	}
 	t.Eval()
 	var jp *jmespath.JMESPath
 	var before string
@@ -242,7 +252,7 @@ func c06Case(r *mon.Run, t *mon.Tally, rl *mon.RaceLog, wl string, idx int, tree
 	o, changed := searchWatched(expr, jp, doc)
 	t.Count("outcome:" + o.Class())
 	if o.Panicked {
-		r.Violate(&mon.Violation{Workload: wl, Index: idx, API: "Search", Expr: expr, Doc: base, Expected: "no panic", Observed: o.String(), Detail: o.Stack, Class: "panic"})
+		r.Violate(&mon.Violation{Workload: wl, Index: idx, API: "Search", Expr: expr, Doc: base, DocDesc: docDesc, Expected: "no panic", Observed: o.String(), Detail: o.Stack, Class: "panic"})
 		return
 	}
 	onWhat := "success"
@@ -250,20 +260,20 @@ func c06Case(r *mon.Run, t *mon.Tally, rl *mon.RaceLog, wl string, idx int, tree
 		onWhat = "error return"
 	}
 	if changed {
-		r.Violate(&mon.Violation{Workload: wl, Index: idx, API: "Search", Expr: expr, Doc: base, Expected: "document deep-equal to what it was before the call (" + onWhat + ")",
+		r.Violate(&mon.Violation{Workload: wl, Index: idx, API: "Search", Expr: expr, Doc: base, DocDesc: docDesc, Expected: "document deep-equal to what it was before the call (" + onWhat + ")",
 			Observed: "document after the call: " + mon.Show(doc), Class: wl + ": snapshot changed on " + onWhat})
 		return
 	}
 	if rep := rl.Grown(); rep != "" {
 		n, frames := mon.RaceSummary(rep, "go-jmespath")
-		r.Violate(&mon.Violation{Workload: wl, Index: idx, API: "Search", Expr: expr, Doc: base,
+		r.Violate(&mon.Violation{Workload: wl, Index: idx, API: "Search", Expr: expr, Doc: base, DocDesc: docDesc,
 			Expected: "no write to the document during the call (" + onWhat + "): the unsynchronised reader must not race with Search",
 			Observed: "race detector: " + mon.Show(float64(n)) + " report(s); library frames: " + strings.Join(frames, ", "), Detail: clipStr(rep, 6000), Class: wl + ": write detected by the race detector"})
 		return
 	}
 	if jp != nil {
 		if after := jmespath.VerifSexpr(jmespath.VerifAST(jp)); after != before {
-			r.Violate(&mon.Violation{Workload: wl, Index: idx, API: "Compile+Search", Expr: expr, Doc: base, Expected: "compiled expression unchanged by Search: " + before, Observed: after, Class: wl + ": literal in the compiled expression modified"})
+			r.Violate(&mon.Violation{Workload: wl, Index: idx, API: "Compile+Search", Expr: expr, Doc: base, DocDesc: docDesc, Expected: "compiled expression unchanged by Search: " + before, Observed: after, Class: wl + ": literal in the compiled expression modified"})
 			return
 		}
 	}
@@ -282,7 +292,7 @@ func clipStr(s string, n int) string {
 
 func c06(r *mon.Run) {
 	r.Rule = "per case a fresh document (every array with spare capacity), one goroutine deep-reading every word of it (elements up to cap, map entries) with no synchronisation to the goroutine that calls Search; under -race any write to the document is a reported data race whether or not it changes a value; plus a canonical snapshot before/after, on value and error returns alike, and the compiled AST's s-expression before/after for literal-fed calls. " +
-		"Workload: every built-in function (every typed argument template) with every parameter fed from the document x 24 nestings (standalone, piped, in multi-selects, twice, inside a projection, inside an expression reference, inside a filter, followed by an error, next to an erroring sibling, and as the left side of every projection kind, of filters that drop elements and of an index …), the same with literals, 27 special compositions (sorts of sorts, failing by-expression sorts, flatten/merge/to_array aliasing), every built-in function on 23 typed operands of Go-struct documents (typed slices, structs, pointers; 1 and 2 arguments); seeded random trees on typed documents. Non-trivial = distinct expressions that reached the interpreter and returned."
+		"Workload: every built-in function (every typed argument template) with every parameter fed from the document x 24 nestings (standalone, piped, in multi-selects, twice, inside a projection, inside an expression reference, inside a filter, followed by an error, next to an erroring sibling, and as the left side of every projection kind, of filters that drop elements and of an index …), the same with literals, 27 special compositions (sorts of sorts, failing by-expression sorts, flatten/merge/to_array aliasing), every built-in function on 23 typed operands of Go-struct documents (typed slices, structs, pointers; 1 and 2 arguments); seeded random trees on typed documents; 26 flatten/projection/function shapes on one-element wrappers around lists of 1…4096 elements (exact and spare capacity) and on lists of one-element lists; the function matrix on documents whose leaves are json.Number / int / pointers / named types. Non-trivial = distinct expressions that reached the interpreter and returned."
 	r.Floor = 300
 	r.Assumptions = []string{"the Go race detector reports conflicting accesses without a happens-before edge regardless of their timing; harness goroutines share nothing but the document",
 		"built with -race; without the race log (VH_RACELOG) only the snapshot monitor is active and the run is reported as inconclusive for the 'no write' clause"}
@@ -388,6 +398,69 @@ func c06(r *mon.Run) {
 			}
 		}}
 	_ = ref.Canon
-	r.Exec(fm, sd, rnd)
+	// one-element wrappers around long lists, and long lists of one-element lists: a shortcut that hands the
+	// document's own inner list on as a "temporary" (to be cleared, pooled or appended to) only exists for such shapes
+	wlens := []int{1, 2, 3, 15, 16, 17, 18, 24, 33, 63, 64, 65, 100, 129, 1000, 4096}
+	w, ww, sg := gen.Field("w"), gen.Field("ww"), gen.Field("sg")
+	bad := gen.Func("abs", gen.Current())
+	wtrees := []*gen.Expr{
+		gen.Chain(w, gen.StFlatten()), gen.Chain(w, gen.StFlatten(), gen.StFlatten()), gen.Chain(w, gen.StListStar(), gen.StFlatten()), gen.Pipe(gen.Chain(w, gen.StFlatten()), bad),
+		gen.Chain(w, gen.StFlatten(), gen.StField("n")), gen.Chain(w, gen.StIndex(0), gen.StFlatten()), gen.Pipe(gen.Chain(w, gen.StFlatten()), gen.Chain(nil, gen.StIndex(0))),
+		gen.Func("sort_by", gen.Chain(w, gen.StFlatten()), gen.ExpRef(gen.Field("n"))), gen.Func("reverse", gen.Chain(w, gen.StFlatten())), gen.Chain(w, gen.StListStar(), gen.StListStar()),
+		gen.Chain(w, gen.StFilter(gen.Current()), gen.StFlatten()), gen.Chain(ww, gen.StFlatten(), gen.StFlatten(), gen.StFlatten()), gen.Func("map", gen.ExpRef(gen.Chain(nil, gen.StFlatten())), w),
+		gen.Chain(w, gen.StFlatten(), gen.StFilter(gen.Field("n"))), gen.Chain(ww, gen.StFlatten(), gen.StFlatten(), gen.StField("n")), gen.Chain(gen.Current(), gen.StStar(), gen.StFlatten()),
+		gen.Chain(sg, gen.StFlatten()), gen.Chain(sg, gen.StFlatten(), gen.StField("n")), gen.Chain(sg, gen.StListStar(), gen.StIndex(0)), gen.Func("sort_by", gen.Chain(sg, gen.StFlatten()), gen.ExpRef(gen.Field("n"))),
+		gen.Chain(w, gen.StIndex(0), gen.StSliceS("", "", "")), gen.Chain(w, gen.StIndex(0), gen.StSliceS("", "", "-1")), gen.Func("to_array", gen.Chain(w, gen.StIndex(0))), gen.Func("not_null", gen.Chain(w, gen.StIndex(0))),
+		gen.MultiList(gen.Chain(w, gen.StFlatten()), gen.Chain(w, gen.StFlatten())), gen.Func("merge", gen.Chain(w, gen.StIndex(0), gen.StIndex(0)), gen.Chain(w, gen.StIndex(0), gen.StIndex(-1))),
+	}
+	wrapDoc := func(n int, exact bool) func() interface{} {
+		return func() interface{} {
+			mk := func() []interface{} {
+				a := make([]interface{}, n, n+3)
+				if exact {
+					a = make([]interface{}, n)
+				}
+				for i := range a {
+					a[i] = map[string]interface{}{"n": float64((i * 7) % 5), "i": float64(i)}
+				}
+				return a
+			}
+			single := make([]interface{}, n)
+			for i := range single {
+				single[i] = []interface{}{map[string]interface{}{"n": float64(i % 3), "i": float64(i)}}
+			}
+			return map[string]interface{}{"w": []interface{}{mk()}, "ww": []interface{}{[]interface{}{mk()}}, "sg": single}
+		}
+	}
+	nw := len(wtrees) * len(wlens) * 2
+	wr := mon.Workload{Name: "singleton-wrappers", N: nw, Serial: true, Batch: 100,
+		Describe: func(i int) string {
+			return gen.Spell(wtrees[i/2%len(wtrees)]) + " inner length " + strconv.Itoa(wlens[i/2/len(wtrees)])
+		},
+		Do: func(i int, t *mon.Tally) {
+			c06Case(r, t, rl, "singleton-wrappers", i, wtrees[i/2%len(wtrees)], wrapDoc(wlens[i/2/len(wtrees)], i%2 == 1), false)
+		}}
+	// the same function matrix on documents whose scalar leaves are in a non-canonical Go representation
+	// (json.Number from Decoder.UseNumber, ints, pointers, named types): whatever Search makes of them
+	// (mostly invalid-type errors), it must not normalise them in place
+	var xtrees []*gen.Expr
+	for _, c := range c06Calls(false, base) {
+		ns := c06Nestings(c)
+		xtrees = append(xtrees, ns[0], ns[6], ns[7])
+	}
+	xtrees = append(xtrees, c06Specials()...)
+	for _, f := range []string{"n", "s", "an", "ao", "o", "big"} {
+		xtrees = append(xtrees, gen.Field(f), gen.Chain(gen.Field("ao"), gen.StFilter(gen.Cmp(">", gen.Field("n"), gen.LitJSON("1")))), gen.Chain(gen.Field("ao"), gen.StFilter(gen.Field(f))))
+	}
+	nx := len(xtrees) * len(docs.ExoticModes)
+	xd := mon.Workload{Name: "non-canonical-leaves", N: nx, Serial: true, Batch: 200,
+		Describe: func(i int) string {
+			return gen.Spell(xtrees[i/len(docs.ExoticModes)]) + " on leaves as " + docs.ExoticModes[i%len(docs.ExoticModes)]
+		},
+		Do: func(i int, t *mon.Tally) {
+			mode := i % len(docs.ExoticModes)
+			c06Case(r, t, rl, "non-canonical-leaves", i, xtrees[i/len(docs.ExoticModes)], func() interface{} { return docs.Exotic(base, mode) }, false)
+		}}
+	r.Exec(fm, sd, rnd, wr, xd)
 	r.Extra["race_log_active"] = rl != nil
 }
